@@ -153,6 +153,7 @@ def check_short_input(rc: RuleCtx, rule: str, fi, extra_args=None) -> bool:
     from ..intervals import int_bounds
     res = rc.res
     ev = rc.new_eval()
+    ev.inline_depth = 0          # only the function's own exits matter here: helpers stay opaque calls of their arguments
     pts = ev.point("points", True)
     knees = ev.symbol("knees", True)
     ev.len_map = {"points": sym("n"), "knees": sym("K")}
